@@ -275,6 +275,19 @@ CHECKS['C16']['text'] += (" R16.F sibling agreement: every constructor-argument 
 CHECKS['C17']['text'] += " Result-less activations (constructor bodies) empty the return slot too."
 CHECKS['C18']['text'] += " The evaluator's copy of the switch guards no state change of evaluator or simulator either."
 
+CHECKS['C03']['text'] += " The free list is a multiset of released indices: the allocator removes exactly the element it hands out (pop of the element read, or swap-and-pop of the position read)."
+CHECKS['C08']['text'] += " Every builder of runtime classes copies the same members from the base."
+CHECKS['C11']['text'] += (" The kept set is seeded with every candidate, reachable or not, whose class chain has a destructor body or qubit/tracked fields (closure over the base chain; the mark bit "
+                          "may not be tested).")
+CHECKS['C12']['text'] += (" R12.12/R12.13: every std::vector subscript of the evaluator (161 sites) is proven in range: loop-counter subscripts and value-array subscripts (C07's R07.4, run here too), "
+                          "the built-in argument vector (R12.6), and 41 others by bound tests, grow-to-fit, validating callees, validating earlier loops, the name→offset maps (premise checked at every "
+                          "writer) and object storage sized at creation.")
+CHECKS['C14']['text'] += " R14.7: the declarators parked by `qubit a, b, c;` are flushed into the same list right after the first was appended, at every flush site."
+CHECKS['C16']['text'] += " R16.G: every visitor of a declaration with a body sets each member visit(ReturnStatement) decides from."
+CHECKS['C17']['text'] += (" Each measurement is recorded under the measured qubit's own index (C02's R02.5, run here); the collector's closure over kept objects is skipped once the run is over, so the "
+                          "end-of-run collection releases their referrers inside the run.")
+CHECKS['C20']['text'] += " Between reading a listed file name and comparing it with the asset name only a leading '*' and a leading \"./\" may be removed (fixed-length erase under an exact prefix test)."
+
 NOT_YET = "check not yet built in this round (framework under construction; see DESIGN.md §4 for the planned static rules)"
 
 
